@@ -20,12 +20,16 @@
    under [fo_agrees] (decoding the printed filter text gives the filter back:
    json.Marshal / Unmarshal of Filter are oracle inputs of the model; the Go
    oracle checks this on every generated URL).
-   NOT PROVED: invariance under reordering differently named parameters at
-   the level of the parsed URL (Go's map iteration; correspondence + oracle). *)
+   (6) C08_parameter_order_values / C08_parameter_order_raw: the URL (and its
+   text) does not depend on the order in which differently named parameters
+   are met -- for every order of Go's map iteration over url.Values, and for
+   two raw URLs whose '&'-separated pieces are permutations of each other
+   (Proofs/PermFold.v: steps with different keys commute up to map
+   equality; Proofs/C08Order.v). *)
 From Coq Require Import Permutation.
 From JV Require Import Model.Base Model.GoTime Gen.TypeGo Model.Schema Model.Value
-  Model.Url Model.UrlParse Proofs.C08Facts Proofs.C08Parse Proofs.C08Rules Proofs.C08Reparse
-  Proofs.C08Origin Proofs.C08Fixed.
+  Model.Url Model.UrlParse Proofs.C08Facts Proofs.C08Strings Proofs.C08Parse Proofs.C08Rules Proofs.C08Reparse
+  Proofs.C08Origin Proofs.C08Fixed Proofs.PermFold Proofs.C08Order.
 
 Theorem C08_query_escape_invertible : forall s, unescape true (query_escape s) = Some s.
 Proof. exact query_unescape_escape. Qed.
@@ -78,6 +82,29 @@ Theorem C08_string_fixed_point_partial : forall s path values fo u lj fo',
 Proof. exact string_fixed_point. Qed.
 Print Assumptions C08_string_fixed_point_partial.
 
+Theorem C08_parameter_order_values : forall s path vs1 vs2 fo lj,
+  NoDup (map fst vs1) -> Permutation vs1 vs2 ->
+  match new_url_from s path vs1 fo, new_url_from s path vs2 fo with
+  | Ok u1, Ok u2 => url_eq u1 u2 /\ url_string u1 lj = url_string u2 lj
+  | Err, Err => True
+  | _, _ => False
+  end.
+Proof. exact values_order. Qed.
+Print Assumptions C08_parameter_order_values.
+
+Theorem C08_parameter_order_raw : forall s P x1 ps1 x2 ps2 fo lj,
+  all_chars rsafe P = true -> Forall piece_safe (x1 :: ps1) ->
+  Permutation (x1 :: ps1) (x2 :: ps2) ->
+  NoDup (map fst (decoded (x1 :: ps1))) ->
+  match new_url_from_raw s (P ++ "?" ++ join "&" (x1 :: ps1)) fo,
+        new_url_from_raw s (P ++ "?" ++ join "&" (x2 :: ps2)) fo with
+  | Ok u1, Ok u2 => url_eq u1 u2 /\ url_string u1 lj = url_string u2 lj
+  | Err, Err => True
+  | _, _ => False
+  end.
+Proof. exact raw_order. Qed.
+Print Assumptions C08_parameter_order_raw.
+
 (** the hygiene is needed: with an attribute called "-a" the second String()
     differs from the first *)
 Definition c08_odd_schema : schema := mkSchema [mkType "t" [("-a", mkAttr "-a" 1 false)] []].
@@ -117,6 +144,17 @@ Example c08_fixed_point_example :
             = "/t?fields%5Bt%5D=a%2Cb&fields%5Bu%5D=title&filter=la+bel&page%5Bnumber%5D=x+y&page%5Bsize%5D=10&sort=-b%2Cid%2Ca" /\
             fo_agrees (p_filter (u_params u)) (FOLabel "la bel").
 Proof. eexists. split; [vm_compute; reflexivity|]. split; [vm_compute; reflexivity|]. right. reflexivity. Qed.
+
+Example c08_order_example :
+  let ps := ["sort=-b"; "fields%5Bt%5D=b,a"; "page%5Bsize%5D=10"; "bad=%zz"; "include=r"] in
+  all_chars rsafe "/t" = true /\ Forall piece_safe ps /\ NoDup (map fst (decoded ps)) /\
+  decoded ps = [("sort", "-b"); ("fields[t]", "b,a"); ("page[size]", "10"); ("include", "r")] /\
+  is_ok (new_url_from_raw c08_schema ("/t?" ++ join "&" ps) FOErr) = true.
+Proof.
+  cbn zeta. split; [reflexivity|]. split; [repeat constructor|].
+  split; [vm_compute; repeat constructor; cbn; intuition discriminate|].
+  split; vm_compute; reflexivity.
+Qed.
 
 Example c08_escape_examples :
   query_escape "a b&c?#%+/=" = "a+b%26c%3F%23%25%2B%2F%3D" /\
